@@ -66,6 +66,10 @@ CHECKS = [
          technique='TLA+ Reader.tla (records over character classes, codec physical-line splitting, count prefix, $HEX[], check_valid, yield n times) model-checked by TLC: every encoding of every file in bound yields the sequence the file means; every single-record file of the model space and random multi-record files are instantiated (utf-8, iso-8859-1, cp1251) as plain / CRLF / hex / count-prefixed / count+hex / mixed files and read by the real TrainerFileInput (three passes); TLC compares the yielded sequences (TrLine seq) and whole real trainings file by file (TrLine same)',
          text='Equivalence of encodings and non-leakage of skipped records is exhaustive on the model and checked on the real reader for the same space; ruleset identity is checked on real trainings of plain vs hex vs count-prefixed lists.',
          note='The meaning of a generated record (valid / skipped) is fixed by construction. Control characters generated: C0, NEL, LS, PS (DEL / C1 are not claimed). Digests computed in Python.'),
+    dict(pid='C16', cat=MC, design='5/C16',
+         technique='TLA+ Honey.tla (random_walk cumulative loop over integer weights, Owner intervals, Measure) model-checked by TLC for all lists in bound x all draws on a grid (walk = owner, measure = weight); the real random_walk is driven with scripted uniforms just below / at / just above every breakpoint and at midpoints and the chosen pre-terminal validated by TLC (TrHoney walk); real honeywords with scripted in-group choices validated against ExpandDefs!Derive (TrExpand honey); whole honeyword / random_walk sessions and pcfg_guesser.py runs checked for exactly N words, membership and reproducibility (TrHoney run)',
+         text='The sampler is a piecewise constant function of its draws; sweeping the breakpoints decides its measure exactly (whole unit interval, not a sample) for dyadic rulesets.',
+         note='Dyadic probabilities (denominator 16) so that the float partial sums are exact; lists that sum to 1. Non-dyadic float rulesets are only covered up to the 1e-16 rounding of the cumulative sums (not claimed).'),
 ]
 
 NOT_YET = {
